@@ -329,4 +329,36 @@ PROPS = {
   "explanation": "theorems over the bit-exact model for every discrete clause; model tied to the real pool-model packages by a differential run of stateless op lines "
                  "(calc and mutating variants, post-state included); the oracle evaluates the continuum clauses with tolerances derived from powPrecision",
  },
+ "C11": {
+  "modules": ["OsmoVerif.Props.C11"],
+  "min_theorems": 25,
+  "fingerprints": [],
+  "engines": [{"name": "superfluid", "kind": "app", "n": {"quick": 20000, "thorough": 200000}, "shards": {"quick": 4, "thorough": 16}}],
+  "rule": "history 0 of every shard is the scripted witness of the recorded findings; then random histories: 2-3 bonded validators (+1 address that "
+          "is no validator), 3 owners, 1-2 superfluid-enabled share denoms (classic gamm pools; a concentrated pool's full-range shares in about a "
+          "third of the histories) + 1 pool that is not enabled, risk factor in {0, .05, .25, 1/3, .5, .999..., 1}, multipliers k/2, k/3, tiny, large, "
+          "integer, random; 40-160 ops: lock (1 .. 2e19 shares, durations = / > / < unbonding time, multi-coin), add-to-lock, delegate, undelegate, "
+          "unbond, undelegate-and-unbond (full / partial / too much / zero), begin-unlock (full / partial), withdraw, lockup EndBlocker, time advances "
+          "around the unbonding time, epochs preceded by 0-2 swaps / joins / exits in the real pools; wrong senders, missing lock ids, unknown validator. "
+          "An evaluation is one op with the full state compared; non-trivial = every op except `advance`/`reset`; distinct = distinct op lines",
+  "trusted_base": ["cosmos-sdk x/staking below the ledger abstraction (delegation of the intermediary account at exchange rate 1; read back from the "
+                   "real keeper on every op and compared)", "cosmos-sdk x/bank supply + supply offset (compared on every op)",
+                   "x/gamm, x/concentrated-liquidity pools: the epoch's pool readings (OSMO backing, share supply / full-range liquidity) are inputs of the model",
+                   "message-server atomicity is reproduced by the engine with a cache context written back on success only"],
+  "assumptions": ["PARTIAL by construction: validator exchange rate != 1, slashing, jailed/unbonding validators, validator power overflow (stake kept "
+                  "below 2^63 power units), staking rewards and gauge distribution, asset removal by governance, UnbondConvertAndStake / unpool / "
+                  "migration / position-level concentrated wrappers are outside the model; the generator stays inside the modelled regime",
+                  "the epoch is SuperfluidKeeper.AfterEpochStartBeginBlock called directly and the lockup EndBlocker is its two keeper calls (no mint / "
+                  "distribution BeginBlocker runs, so the OSMO supply is touched by superfluid only)",
+                  "drift_le_locks_between_epochs is FALSE on the code (witness theorem + scripted history, known finding F-C11-1): what is proved instead "
+                  "(drift_between_epochs_partial) is exactness after the refresh and a distance of at most 1 + (number of stake adjustments since the refresh) base units",
+                  "the module's own invariant fails on the unchanged tree (known finding F-C11-2)"],
+  "explanation": "state invariant (per lock: plain / delegated with exactly one staking marker and a connection to the same account / undelegating with "
+                 "exactly one unstaking marker ending no later than the lock can; staking accumulation store = sum over connected locks) proved preserved by "
+                 "every entry point and so along every history (induction over the op list); from it: one marker per delegated lock and conversely, "
+                 "unstaking marker ends exactly one unbonding time after the undelegation and survives every call until matured, refresh sets every stake to "
+                 "the expected value exactly, supply + offset constant along every history, BeginUnlocking fails on delegated and undelegating locks, "
+                 "withdraw / EndBlocker cannot pay out a lock whose unstaking marker has not matured, failed calls are no-ops. Model tied to the real keepers "
+                 "by differential run of the complete state after every op.",
+ },
 }
